@@ -154,6 +154,25 @@ def opt_or_else(I, st, depth, callee, args, body, ln):
     return res
 
 
+def opt_filter(I, st, depth, callee, args, body, ln):
+    v, f = args[0], args[1]
+    mn, pl, known = opt_parts(v)
+    if not known:
+        return TOP
+    res = BOT
+    if mn:
+        res = none()
+    if pl is not None:
+        r_ = _tmp_ref(I, st, pl)
+        keep = I.call_value(st, depth, f, [r_], body, ln)
+        st.store.pop(r_.alloc, None)
+        if keep != 0:
+            res = join(res, some(pl))
+        if keep != 1:
+            res = join(res, none())
+    return res
+
+
 def opt_map(I, st, depth, callee, args, body, ln):
     v, f = args[0], args[1]
     mn, pl, known = opt_parts(v)
@@ -679,6 +698,7 @@ TABLE = {
     "core::result::Result::<T, E>::expect": _expect_like("expect"),
     "core::result::Result::<T, E>::unwrap": _expect_like("unwrap"),
     "core::option::Option::<T>::or_else": opt_or_else,
+    "core::option::Option::<T>::filter": opt_filter,
     "core::option::Option::<T>::map": opt_map,
     "core::option::Option::<T>::and_then": opt_and_then,
     "core::option::Option::<T>::unwrap_or": opt_unwrap_or,
